@@ -42,15 +42,16 @@ Section C02.
 
   (* alpha-renaming (replace_args of make_args_unique, any renaming list, any expression, nested
      lambdas and comprehension targets included): if the renaming moves names only onto names the
-     expression does not mention, injectively, and never moves a callee name, the renamed
+     expression does not mention, injectively, and moves no callee name the backend gives a
+     meaning to, the renamed
      expression has the same value in the correspondingly renamed environment *)
   Theorem renaming_preserves_meaning : forall m e E E',
-    good m e -> rel m e E E' -> refines (ev E e) (ev E' (rename m e)).
+    good B m e -> rel m e E E' -> refines (ev E e) (ev E' (rename m e)).
   Proof. exact (rename_refines B ops). Qed.
 
   (* make_args_unique on an operator lambda yields the same function *)
   Theorem fresh_parameter_is_the_same_function : forall x b c v E,
-    mentions (arg_name c) b = false -> is_callee x b = false ->
+    mentions (arg_name c) b = false -> is_callee x b = false \/ nofun B x ->
     match make_args_unique [x] b c with
     | (Lambda [x'] b', _) => refines (ev ((x, v) :: E) b) (ev ((x', v) :: E) b')
     | _ => False
